@@ -2,10 +2,8 @@ package main
 
 import (
 	"fmt"
-	"go/token"
 	"go/types"
 	"reflect"
-	"sort"
 	"strconv"
 	"strings"
 
@@ -15,27 +13,10 @@ import (
 func init() {
 	register(&propDef{
 		id: "C24", run: runC24, minOblig: 60,
-		explanation: "Decides structural clauses of the SSH wire codec: (kind agreement) the reflect.Kind constants handled by marshalStruct equal those handled by Unmarshal (outer switch and slice-element switch); (totality preconditions) every struct type that statically reaches ssh.Marshal / ssh.Unmarshal anywhere in the module, and every struct with an sshtype tag in packages ssh and ssh/agent, has only supported field types (bool, uint8/32/64, string, [N]byte, []byte, []string, *big.Int), uses ssh:\"rest\" only on a final []byte field and has a parsable sshtype tag — so marshalStruct's panic arms and Unmarshal's unsupported-type errors are unreachable for them; (decode table) for each of the 256 message codes, the type decode allocates carries that code in its sshtype tag (evaluated through decode's switch); (length guards) parseString/parseUint32/parseUint64: for a grid of input lengths and length fields every reachable slice expression is in range and success is reported only when enough bytes are present; Unmarshal returns nil only when no bytes are left; (mpint length) intLength evaluates to 4 + ceil(bits/8) + 1-if-bits%8==0 for non-zero values and 4 for zero over a grid of (sign, bit length), and in the negative arm both intLength and marshalInt measure the two's-complement magnitude Sub(Neg(n), 1), so the reserved length and the bytes written agree. NOT decided: value round-trip of mpint contents and name-lists.",
+		explanation: "Decides clauses of the SSH wire codec: (kind agreement) the reflect.Kind constants that marshalStruct or a package helper it calls compares a Kind with equal those of Unmarshal and its helpers (outer switch and slice-element switch); (totality preconditions) every struct type that statically reaches ssh.Marshal / ssh.Unmarshal anywhere in the module, and every struct with an sshtype tag in packages ssh and ssh/agent, has only supported field types (bool, uint8/32/64, string, [N]byte, []byte, []string, *big.Int), uses ssh:\"rest\" only on a final []byte field and has a parsable sshtype tag — so marshalStruct's panic arms and Unmarshal's unsupported-type errors are unreachable for them; (decode table) decode is interpreted once for each of the 256 message codes with the first packet byte bound to the code and package helpers interpreted in place: the struct type whose pointer reaches Unmarshal on that path carries the code in its sshtype tag; (length guards) parseString/parseUint32/parseUint64 are interpreted on concrete inputs over a grid of input lengths and length fields: no index or slice expression leaves the input, success is reported exactly when enough bytes are present, and on success the results are the big-endian value and the windows in[4:4+L] / in[4+L:] (in[w:]) of the input; Unmarshal, with package helpers expanded in place, returns a nil error only across a branch that establishes len(x)==0 for a slice x derived from its input; (mpint) over a grid of 103 integers of both signs around every byte boundary up to 2^2048, with the math/big and encoding/binary calls modelled on concrete values wherever the code places them: intLength(n) equals 4 + the length of the minimal two's-complement encoding of n (RFC 4251), marshalInt writes exactly the uint32 length followed by that encoding into a buffer of intLength(n) (and intLength(n)+3) bytes and returns the remainder, and parseInt maps that encoding followed by 2 more bytes back to n and those 2 bytes without modifying its input. A call on a tracked value that the model does not cover is reported undecided. NOT decided: mpint values outside the grid, non-minimal mpint inputs, name-list contents.",
 		assumptions: []string{"reflect kinds of Go types", "packets handed to decode are non-empty (C26 empty-payload rule)"},
 	})
-	tech("C24", "switch-constant set agreement, go/types table over all message structs, finite-domain enumeration of decode's switch, bounds obligations on the parse helpers, finite-domain evaluation of intLength")
-}
-
-func kindConsts(f *ssa.Function) map[int64]bool {
-	out := map[int64]bool{}
-	allInstrs(f, func(in ssa.Instruction) {
-		bo, ok := in.(*ssa.BinOp)
-		if !ok || (bo.Op != token.EQL && bo.Op != token.NEQ) {
-			return
-		}
-		if bo.X.Type().String() != "reflect.Kind" {
-			return
-		}
-		if k, ok := constInt(bo.Y); ok {
-			out[k] = true
-		}
-	})
-	return out
+	tech("C24", "switch-constant set agreement over functions and their package helpers, go/types table over all message structs, path-walker interpretation of decode per message code, concrete interpretation of the parse helpers and of intLength/marshalInt/parseInt with a math/big + byte-buffer model, interprocedural must-cross for the trailing-bytes check")
 }
 
 func supportedWireField(t types.Type) bool {
@@ -111,21 +92,7 @@ func runC24(c *Ctx) {
 	sweepC24(c)
 	ms, um := c.fn("ssh", "marshalStruct"), c.fn("ssh", "Unmarshal")
 	if ms != nil && um != nil {
-		a, b := kindConsts(ms), kindConsts(um)
-		var da, db []string
-		for k := range a {
-			if !b[k] {
-				da = append(da, reflect.Kind(k).String())
-			}
-		}
-		for k := range b {
-			if !a[k] {
-				db = append(db, reflect.Kind(k).String())
-			}
-		}
-		sort.Strings(da)
-		sort.Strings(db)
-		c.check(len(da) == 0 && len(db) == 0 && len(a) >= 8, "C24.kinds", "marshalStruct vs Unmarshal", ms, fmt.Sprintf("both handle the same %d kinds", len(a)), fmt.Sprintf("kinds only written: %v; kinds only read: %v", da, db))
+		checkC24Kinds(c, ms, um)
 	}
 	// ---- struct types reaching Marshal / Unmarshal
 	seen := map[string]bool{}
@@ -184,190 +151,14 @@ func runC24(c *Ctx) {
 	}
 	c.check(n >= 40, "C24.struct-table", "message struct count", nil, fmt.Sprintf("%d struct types checked", n), fmt.Sprintf("only %d struct types found", n))
 	// ---- decode table
-	if dec := c.fn("ssh", "decode"); dec != nil {
-		bad := ""
-		decoded := 0
-		for code := int64(0); code < 256; code++ {
-			e := newEnv()
-			e.bindIndexLoads(dec, func(b ssa.Value) bool { return b == ssa.Value(dec.Params[0]) }, 0, code)
-			e.solve(dec)
-			allInstrs(dec, func(in ssa.Instruction) {
-				mi, ok := in.(*ssa.MakeInterface)
-				if !ok || !e.reach[mi.Block()] {
-					return
-				}
-				al, ok := mi.X.(*ssa.Alloc)
-				if !ok || !al.Heap {
-					return
-				}
-				st := derefStruct(al.Type())
-				if st == nil {
-					return
-				}
-				if st.NumFields() == 0 {
-					return // body-less message: nothing is unmarshalled, no tag needed
-				}
-				decoded++
-				okCode := false
-				for _, k := range sshTypeCodes(st) {
-					if k == code {
-						okCode = true
-					}
-				}
-				if !okCode {
-					bad = fmt.Sprintf("message code %d is decoded into %s whose sshtype tag is %v", code, short(al.Type().String()), sshTypeCodes(st))
-				}
-			})
-		}
-		c.check(bad == "" && decoded >= 25, "C24.decode-table", "decode", dec, fmt.Sprintf("%d codes decode into a type tagged with that code", decoded), bad+fmt.Sprintf(" (%d codes decoded)", decoded))
+	if dec := c.fn("ssh", "decode"); dec != nil && um != nil {
+		checkC24DecodeTable(c, dec, um)
 	}
 	// ---- parse helpers
-	for _, spec := range []struct {
-		fn   string
-		need int64
-		var_ bool
-	}{{"parseString", 4, true}, {"parseUint32", 4, false}, {"parseUint64", 8, false}} {
-		f := c.fn("ssh", spec.fn)
-		if f == nil {
-			continue
-		}
-		var lenV ssa.Value
-		for _, ci := range calls(f, func(n string) bool { return strings.HasSuffix(n, ").Uint32") }) {
-			lenV = callValue(ci)
-		}
-		b := &boundsCtx{fn: f, tracked: func(p string) bool { return p == "in" }}
-		bad := ""
-		pts := 0
-		for _, n := range []int64{0, 1, 3, 4, 5, 7, 8, 9, 12, 100} {
-			for _, L := range []int64{0, 1, 4, 5, 8, 96, 97, 1 << 31, 1<<32 - 1} {
-				e := newEnv()
-				e.bindLen(f, f.Params[0], n)
-				if lenV != nil && spec.var_ {
-					e.bind(lenV, L)
-				}
-				e.solve(f)
-				b.e = e
-				b.lenOver = map[ssa.Value]int64{ssa.Value(f.Params[0]): n}
-				// len(in) after reslicing: bind len() calls on slices of the parameter
-				changed := false
-				allInstrs(f, func(in ssa.Instruction) {
-					if call, ok := in.(*ssa.Call); ok && calleeName(&call.Call) == "builtin:len" {
-						if sl, ok := call.Call.Args[0].(*ssa.Slice); ok {
-							if v, ok := b.lenOf(sl, call, 0); ok {
-								e.bind(call, v)
-								changed = true
-							}
-						}
-					}
-				})
-				if changed {
-					e.solve(f)
-				}
-				b.check(fmt.Sprintf("len(in)=%d length field=%d", n, L))
-				pts++
-				// success only with enough bytes
-				okIdx := f.Signature.Results().Len() - 1
-				succ := false
-				for _, r := range returnsOf(f) {
-					if !e.reach[r.Block()] {
-						continue
-					}
-					if v, isC := constBool(retVal(r, okIdx)); !isC || v {
-						succ = true
-					}
-				}
-				want := n >= spec.need
-				if spec.var_ {
-					want = n >= 4 && n-4 >= L
-				}
-				if succ != want {
-					bad = fmt.Sprintf("len(in)=%d length field=%d: success possible=%v, specification %v", n, L, succ, want)
-				}
-				if !spec.var_ {
-					break
-				}
-			}
-		}
-		if b.firstBad != "" {
-			bad = b.firstBad
-		}
-		c.check(bad == "", "C24.parse-guards", spec.fn, f, fmt.Sprintf("in-range slicing and exact success condition on %d cases (%d slice obligations)", pts, b.checked), bad)
-	}
+	checkC24ParseGuards(c)
 	if um != nil {
-		// nil only when nothing is left: len(data) == 0 edge
-		var pass []edge
-		allInstrs(um, func(in ssa.Instruction) {
-			if call, ok := in.(*ssa.Call); ok && calleeName(&call.Call) == "builtin:len" {
-				if _, isPhi := call.Call.Args[0].(*ssa.Phi); isPhi {
-					pass = append(pass, edgesImplying(call, []int64{0, 1, 2}, func(d int64) bool { return d == 0 })...)
-				}
-			}
-		})
-		c.mustCross("C24.trailing", "Unmarshal", um, acceptReturns(um, 0), pass, "no input bytes left")
+		checkC24Trailing(c, um)
 	}
-	// ---- intLength
-	if f := c.fn("ssh", "intLength"); f != nil {
-		bad := ""
-		nEval := 0
-		for _, s := range []int64{-1, 0, 1} {
-			for _, bits := range []int64{0, 1, 7, 8, 9, 15, 16, 17, 255, 256, 2048} {
-				e := newEnv()
-				for _, ci := range callsNamed(f, "(*math/big.Int).Sign") {
-					e.bind(callValue(ci), s)
-				}
-				for _, ci := range callsNamed(f, "(*math/big.Int).BitLen") {
-					e.bind(callValue(ci), bits)
-				}
-				e.solve(f)
-				want := int64(4)
-				if s != 0 {
-					want = 4 + (bits+7)/8
-					if bits%8 == 0 {
-						want++
-					}
-				}
-				for _, r := range returnsOf(f) {
-					if e.reach[r.Block()] {
-						v, ok := e.eval(retVal(r, 0))
-						nEval++
-						if !ok || v != want {
-							bad = fmt.Sprintf("sign=%d magnitude bits=%d: intLength evaluates to %d (ok=%v), RFC 4251 mpint needs %d", s, bits, v, ok, want)
-						}
-					}
-				}
-			}
-		}
-		c.check(bad == "" && nEval >= 30, "C24.mpint-length", "intLength formula", f, fmt.Sprintf("matches 4 + ceil(bits/8) + padding on %d cases", nEval), bad)
-	}
-	for _, spec := range []struct{ fn, meth string }{{"intLength", "(*math/big.Int).BitLen"}, {"marshalInt", "(*math/big.Int).Bytes"}} {
-		f := c.fn("ssh", spec.fn)
-		if f == nil {
-			continue
-		}
-		// in the Sign() < 0 arm the measured value derives from Sub(Neg(n), bigOne)
-		var neg []edge
-		for _, ci := range callsNamed(f, "(*math/big.Int).Sign") {
-			neg = append(neg, edgesImplying(callValue(ci), []int64{-1, 0, 1}, func(d int64) bool { return d < 0 })...)
-		}
-		okArm := false
-		for _, ci := range callsNamed(f, spec.meth) {
-			cut := edgeSet{}
-			cut.addAll(neg)
-			if len(neg) == 0 || pathFromEntry(ci, cut) {
-				continue // not in the negative arm
-			}
-			recv := ci.Common().Args[0]
-			// receiver is the value that Sub(…, bigOne) wrote into: the Neg call result, with a Sub call on it
-			negCall, ok := recv.(*ssa.Call)
-			if !ok || short(calleeName(&negCall.Call)) != "(*math/big.Int).Neg" {
-				continue
-			}
-			for _, r := range *negCall.Referrers() {
-				if sub, ok := r.(*ssa.Call); ok && short(calleeName(&sub.Call)) == "(*math/big.Int).Sub" && sub.Call.Args[0] == ssa.Value(negCall) && sub.Call.Args[1] == ssa.Value(negCall) && accessPath(sub.Call.Args[2]) == "bigOne" && precedes(sub, ci) {
-					okArm = true
-				}
-			}
-		}
-		c.check(okArm, "C24.mpint-length", spec.fn+" negative arm", f, "measures -n-1 (two's complement magnitude)", "the negative arm does not measure Sub(Neg(n), 1): reserved length and written bytes can disagree for negative values")
-	}
+	// ---- mpint: intLength / marshalInt / parseInt
+	checkC24Mpint(c)
 }
